@@ -134,4 +134,59 @@ PROPS = {
             dict(name="wiregen", bin="wiregen/run.py", build="script", timeout=dict(quick=1500, thorough=3600)),
         ],
     ),
+
+    "C09": dict(
+        level="exploration",
+        engine="simnet",
+        technique="runtime monitoring against a simulated EtherCAT segment: the real MainDevice::init runs over PduTx/PduRx against software ESCs (registers, SII, AL state machine) generated from random device descriptions; the oracle compares the groups/SubDevice metadata ethercrab reports and the station-address/AL registers the simulated devices hold with the generating descriptions",
+        level_text=("Seeded exploration of networks of 0..MAX+2 devices for MAX in {2,4,8,16}, random pre-existing station addresses (duplicates and collisions with the 0x1000 range forced), 4/8-byte SII reads, with/without names, mailboxes and DC, 1..3 groups chosen by the group filter. "
+                    "Held = count, grouping, station address 0x1000+i in the device, identity/name/alias/DC capability of exactly device i, every device in PRE-OP, Err(Capacity) above capacity and Ok with empty groups for the empty network, on every generated network; no panic."),
+        level_note="The simulator (harness/src/sim) is my reading of ETG.1000/ETG.2010 and is itself cross-checked by C12 (its SII builder against ethercrab's parser). The empty network is modelled as an echo with the U/L bit set (the only way ethercrab can see 0 devices); the unmodified echo ends in Timeout and is recorded, not judged.",
+        rule="case = one generated network (descriptions + stale addresses + grouping); non-trivial = at least 2 devices, or over capacity, or empty; distinct by hash of the scenario",
+        assumptions=["chain topology (trees are C17's subject)", "virtual time"],
+        min_distinct=dict(quick=150, thorough=20000),
+        required_counters=["init_ok", "empty_network_ok", "over_capacity_rejected", "devices.at-capacity"],
+        runs=[native("init-release", "c09", "release"), native("init-debug", "c09", "debug", args={"scale-pct": dict(quick=30, thorough=10)})],
+    ),
+    "C12": dict(
+        level="exploration",
+        engine="simnet",
+        technique="runtime differential monitoring: SII images built by an independent ETG.2010 image builder from random device descriptions are read back through ethercrab's parser (cfg-gated probe, in-memory provider with 4/8-byte chunks) and, for a subset, end-to-end through the simulated SII register interface with the public eeprom_read_raw/eeprom_read/eeprom_size",
+        level_text=("Per run thousands of images (0..50 strings incl. non-ASCII/NUL up to 255 bytes, 0..8 sync managers, 0..16 FMMUs, 0..64 PDOs with up to 40 entries, FMMU_EX, unknown vendor categories interleaved, shuffled category order, 128 B..16 KiB) x 80 random (start word, length) ranges each incl. odd lengths, buffers pre-filled with a canary. "
+                    "Held = every returned byte equals the stored byte, nothing beyond the request touched, in-range requests return the full count, and identity/name/description/strings/mailbox/general/sync managers/FMMU usage/FMMU_EX/PDOs with bit lengths/size equal the generating description."),
+        level_note="Names longer than the API's heapless capacity must yield StringTooLong (accepted). Images above 16 KiB are only covered by C13's robustness check, not by the equality oracle.",
+        rule="case = one generated image; all are non-trivial (never blank); distinct by hash of the image bytes",
+        assumptions=["well-formed images: string indices inside the table"],
+        min_distinct=dict(quick=1500, thorough=150000),
+        required_counters=["parsed.pdos", "parsed.sync_managers", "parsed.fmmu_ex", "parsed.string", "raw.odd_len", "raw.even_len", "chunk.4", "chunk.8", "e2e_raw_reads", "name_too_long_for_capacity"],
+        runs=[native("sii-release", "c12", "release"), native("sii-debug", "c12", "debug", args={"scale-pct": dict(quick=25, thorough=5)})],
+    ),
+    "C13": dict(
+        level="exploration",
+        engine="simnet",
+        technique="runtime monitoring with catch_unwind and a provider-access budget around every EEPROM-derived query and around init+configuration on a simulated device carrying the image; the same binary is run as a debug build (overflow checks on) and as a release build (wrapping arithmetic)",
+        level_text=("Tens of thousands of arbitrary, structured-then-mutated and adversarial images per run (random bytes, blank, all ones, category length 0xFFFF, wrap-to-self and wrap-to-earlier chains, size word >= 511, string index past the table, several 255x255-bit PDOs on one sync manager, truncated, lying string tables, no end marker, runs of empty categories), both chunk sizes, 25 queries each + full init/into_safe_op for 1 in 40. "
+                    "Held = no panic and no query needing more than 70000 provider accesses (bounded walk), in both builds."),
+        level_note="'Loop forever' is restated as exceeding 70000 provider accesses (more than one pass over the 64 Ki-word address space); a wall-clock watchdog firing is inconclusive, never a violation.",
+        rule="case = one image; non-trivial = not all-zero/all-ones; distinct by content hash",
+        assumptions=[],
+        min_distinct=dict(quick=20000, thorough=1000000),
+        required_counters=["image.wrap-to-self", "image.wrap-to-earlier", "image.category-len-ffff", "image.size-word-large", "image.string-index-past-table", "image.pdo-255x255", "image.blank-zero", "image.blank-ones", "init_runs", "query.tx_pdos"],
+        runs=[native("sii-fuzz-release", "c13", "release"), native("sii-fuzz-debug", "c13", "debug", args={"scale-pct": dict(quick=60, thorough=20)})],
+    ),
+    "C14": dict(
+        level="fault_enumeration",
+        engine="simnet",
+        technique="runtime monitoring against the simulated SII interface: EEPROM array diff before/after SubDevice::set_alias_address / eeprom_write_dangerously, independent CRC-8, SII write-command log (addresses, retries) with injected command errors and a busy-forever device",
+        level_text=("quick: 2000 boundary-biased aliases; thorough: all 65536 alias values, each over random initial header words; generic writes of 1..64 bytes (odd and even) at category, end-of-EEPROM and random word addresses; devices answering 0,1,3,19,20,21,25 command errors or staying busy forever. "
+                    "Held = only words 4 and 7 change, word 4 == alias, low byte of word 7 == CRC-8(poly 7, init 0xFF) of the first 14 bytes after the change, reported alias == new alias, generic writes store exactly the bytes (odd tail padded with 0) in exactly the expected words, at most 21 write commands per word, busy device ends in Timeout(Eeprom) in bounded virtual time."),
+        level_note="The high byte of the checksum word is recorded, not judged.",
+        rule="case = (alias or write payload, initial header, fault script); distinct by (case, alias, mode)",
+        assumptions=[],
+        min_distinct=dict(quick=1500, thorough=60000),
+        required_counters=["mode.set_alias", "mode.generic_write", "generic.odd_len", "cmd_errors.21", "cmd_errors.25", "device_busy_forever"],
+        exhaustive_counter="all_65536_aliases_partition_run",
+        exhaustive_note="thorough tier: every one of the 65536 alias values is written once (alias = case number)",
+        runs=[native("alias-release", "c14", "release"), native("alias-debug", "c14", "debug", args={"scale-pct": dict(quick=20, thorough=2)})],
+    ),
 }
